@@ -14,5 +14,6 @@ fn main() {
         if toks.is_empty() || toks[0] == "SHAPE" || toks[0].starts_with('#') { continue }
         let r = std::panic::catch_unwind(std::panic::AssertUnwindSafe(|| gen::dispatch(toks[2], &toks)));
         match r { Ok(s) => w.write_all(s.as_bytes()).unwrap(), Err(_) => writeln!(w, "{} HARNESS-PANIC", toks[1]).unwrap() }
+        w.flush().unwrap();        // per case: when the process aborts inside a case, everything before it has been delivered
     }
 }
